@@ -228,7 +228,9 @@ PROPS["C16"]["explanation"] = ("Proved for all inputs: gap_degree_node == set-ba
                                "terminal_blocks partitions T(node) into its maximal runs in order with |blocks| = gap degree + 1, "
                                "gap_degree is the maximum over the nodes in preorder, the counting tasks add exactly one per sentence / "
                                "token tag / gap degree class (loop invariants and recursive count specs, no bound). The contracts of "
-                               "trees.preorder, trees.terminals and trees.children used at call sites are verified under C19. Printed reports, the three-way agreement and disco_order are bounded only.")
+                               "trees.preorder, trees.terminals and trees.children used at call sites are verified under C19. disco_order of a binarized tree lists exactly the tokens below the node, each once "
+                               "(both modes; recursion with a decreasing rank). Printed reports, the three-way agreement and that the reordering "
+                               "is the identity on continuous trees are bounded only.")
 PROPS["C19"]["technique"] = ("contract-based deductive verification (pyvc, read-only heap with ghost depth/anc/pos/rank) of terminals, children, "
                              "preorder, postorder, right_sibling, left_sibling, dominance, lca + lemmas (siblings inverse, lca lowest); bounded "
                              "stand-in for levels/numbering and for the ghost theory")
